@@ -223,6 +223,37 @@ def scenario_direct(run, seed, idx, cImageD11, indexing):
     if initk != "fresh":
         # peaks that held a stale name and end unassigned went through the release branch
         run.count("stale_labels_released", int(((lab0 != -1) & (lab1 == -1)).sum()))
+    # label / error arrays as callers may hold them (numpy's default int64, a column of a 2-D table, float errors in
+    # float32): the wrapper either refuses them or the caller's own arrays carry the answer - never a silent copy
+    for variant in ("int64", "strided-int32", "int16", "drlv2-float32", "drlv2-strided"):
+        cImageD11.cimaged11_omp_set_num_threads(1)
+        dv = np.full(n, dinit)
+        lv = lab0.copy()
+        if variant == "int64":
+            lv = lab0.astype(np.int64)
+        elif variant == "int16":
+            lv = lab0.astype(np.int16)
+        elif variant == "strided-int32":
+            big = np.zeros((n, 2), np.int32)
+            big[:, 0] = lab0
+            lv = big[:, 0]
+        elif variant == "drlv2-float32":
+            dv = np.full(n, dinit, np.float32)
+        else:
+            bigd = np.zeros((n, 3))
+            bigd[:, 1] = dinit
+            dv = bigd[:, 1]
+        try:
+            for g in range(ng):
+                cImageD11.score_and_assign(ubis[g], gv, tol, dv, lv, int(g))
+        except Exception:
+            run.count("array_variants_refused")
+            continue
+        run.count("array_variants_accepted")
+        if not np.array_equal(np.asarray(lv).astype(int), lab1.astype(int)) or \
+                (variant != "drlv2-float32" and not np.array_equal(np.asarray(dv, float), d1)):
+            V("score_and_assign:array-variant:" + variant, "score_and_assign accepted a %s array but the caller's labels / errors "
+              "do not hold the result (a temporary copy was filled and dropped)" % variant)
     # the value returned by each call: number of peaks taken in that call
     for g, (lo, hi), got in zip(range(ng), return_interval(errs, range(ng), tol, hmax + 1, dinit), rets1):
         run.count("return_values_judged")
